@@ -56,7 +56,8 @@ def _sorter(rows, key_calc, reverse, batch_size):
 
     def process(rows):
         for row_num, row in enumerate(rows):
-            key = key_calc(row) + '{:08x}'.format(row_num)
+            # The separator sorts before any character, so a key that is a prefix of another one stays first
+            key = key_calc(row) + '\x00{:08x}'.format(row_num)
             yield (key, row)
 
     db.insert(process(rows), batch_size=batch_size)
